@@ -35,9 +35,14 @@ def correspondence(ctx):
         elif i % 5 == 2:
             # alternating compressible / random regions: fools the splitter and sub-block paths
             x = b"".join(datagen.text(rng, 8192) if j % 2 else datagen.randbytes(rng, 8192) for j in range(rng.randint(4, 24))); kind = "alternating"
+        elif i % 10 == 3:
+            # last block: more than 64 KiB of entropy-coded literals, fewer than 128 KiB left in an exactly sized destination
+            x = datagen.longlits(rng, 131072 * rng.choice([1, 2]) + rng.randint(70000, 127000)); kind = "longlits"
         else:
             kind, x = datagen.gen(rng, 60000)
         p = frames.param_vector(rng, True, allow_fmt=False)
+        if kind == "longlits":
+            p = {100: rng.choice([1, 3, 5])}
         if kind in ("blockstruct", "alternating") and rng.random() < 0.7:
             p = {100: rng.choice([16, 17, 19]), **({130: 1340} if rng.random() < 0.3 else {}), **({1010: 1} if rng.random() < 0.5 else {})}
         cases.append((kind, x, p))
@@ -108,6 +113,24 @@ def correspondence(ctx):
             ctx.violation("capacity %d >= ZSTD_compressBound = %d but compression failed: %s" % (cp, b, r), rep)
         if len(ctx.violations) >= 5:
             break
+    # (b2) frame epilogue written by an input-less call into a destination with 0..12 spare bytes (stable output buffer, buffer-less API)
+    elines = []
+    for i in range(24 if ctx.quick() else 400):
+        kind, x = datagen.gen(rng, rng.choice([2000, 60000, 200000]))
+        p = {100: rng.choice([1, 3, 5, 9]), 201: rng.choice([0, 1, 1])}
+        if rng.random() < 0.3: p[101] = rng.choice([10, 14, 17])
+        elines.append("cend %s %s" % (frames.pstr(p), frames.hx(x)))
+    eres = frames.parallel(lambda ch: [frames.run_lines(exe, ch, timeout=1800)], frames.split_chunks(elines, 16))
+    ech = frames.split_chunks(elines, 16)
+    for (rc, out, err), ch in zip(eres, ech):
+        ev += len(ch) * 26
+        if rc != 0 or len(out) != len(ch):
+            bad = ch[min(len(out), len(ch) - 1)]
+            ctx.violation("sanitizer build aborted while ending a frame into a destination with 0..12 spare bytes: %s" % (err or "")[-600:], dict(kind="monitor", op=bad[:400000], stderr=(err or "")[-3000:]))
+            continue
+        for ln, r in zip(ch, out):
+            if "OVER" in r:
+                ctx.violation("frame epilogue written past the destination capacity: %s" % r[:300], dict(kind="monitor", op=ln[:400000], result=r))
     # (c) decode capacity sweep + inspectors + in-place
     lines, dinfo = [], []
     frs = frames.parallel(lambda ch: frames.run_lines(plain, ch)[1], frames.split_chunks(["comp2 c2 %s %s" % (frames.pstr(p), frames.hx(x)) for k, x, p in cases], 16))
